@@ -179,6 +179,13 @@ pub fn run(toks: &[&str]) -> String {
             "dot" => format!("{}/./{name}", dir.join("gens").display()),
             "dslash" => format!("{}//{name}", dir.join("gens").display()),
             "updown" => format!("{}/../gens/{name}", dir.join("gens").display()),
+            "ctl" | "astral" => {
+                // a directory whose name contains control characters, or characters beyond the basic plane
+                let odd = dir.join("gens").join(if parts[3] == "ctl" { "c\u{1}t\u{9b}l\u{7f}" } else { "a\u{1F600}\u{10FFFF}z" });
+                std::fs::create_dir_all(&odd).unwrap();
+                if gpath.exists() { let _ = std::fs::copy(&gpath, odd.join(&name)); }
+                format!("{}/{name}", odd.display())
+            }
             "bslash" => {
                 // a directory whose name contains backslashes (none of them before ',' or '='): the same program under that path
                 let odd = dir.join("gens").join("odd\\dir \\x");
